@@ -7,6 +7,7 @@ import (
 	"go/ast"
 	"go/token"
 	"go/types"
+	"sort"
 	"strings"
 )
 
@@ -92,6 +93,54 @@ func runC11(c *Ctx, r *Report) {
 	r.Doc("R-C11.12", "a configured timeout is applied: on every path on which the timeout is not known to be non-positive, the work is started with a context derived by WithTimeout from the configured value")
 	r.Doc("R-C11.13", "an unbounded fetch follows every link kind of every fetched entry (adopted from C09): entries reachable only through references past an unretrievable block are still returned")
 	importRules(c, r, "C09", []string{"R-C09.3", "R-C09.4"}, "R-C11.13")
+	r.Doc("R-C11.15", "every acquire and release of the fetcher's slot semaphore moves the same positive weight (a release of less leaks slots until the dispatcher blocks for ever, a release of more panics, an acquire of nothing bounds nothing)")
+	{
+		nsem := 0
+		weights := map[int64]bool{}
+		for _, fn := range p.Fns {
+			if fn.Orig != nil || !inPkgs(p, fn, "entry") {
+				continue
+			}
+			walkNoLit(fn.Body, func(n ast.Node) bool {
+				call, ok := n.(*ast.CallExpr)
+				if !ok {
+					return true
+				}
+				cf := p.Callee(fn, call)
+				if cf == nil || cf.Pkg() == nil || cf.Pkg().Path() != "golang.org/x/sync/semaphore" {
+					return true
+				}
+				var warg ast.Expr
+				switch cf.Name() {
+				case "Acquire":
+					if len(call.Args) == 2 {
+						warg = call.Args[1]
+					}
+				case "TryAcquire", "Release":
+					if len(call.Args) == 1 {
+						warg = call.Args[0]
+					}
+				}
+				if warg == nil {
+					return true
+				}
+				nsem++
+				w, isConst := p.constInt(fn, warg)
+				key := r.Key("R-C11.15", fn, "weight", cf.Name())
+				if !isConst {
+					r.Undecided("R-C11.15", key, call.Pos(), "the weight of this semaphore operation is not a constant the rule can compare")
+					return true
+				}
+				weights[w] = true
+				r.Check(w >= 1, "R-C11.15", key, call.Pos(), fmt.Sprintf("%s moves the weight %d", cf.Name(), w),
+					fmt.Sprintf("%s moves the weight %d: a slot operation that moves nothing neither bounds the number of workers nor gives a slot back, and after as many fetches as there are slots the dispatcher waits for ever", cf.Name(), w))
+				return true
+			})
+		}
+		r.Check(len(weights) <= 1, "R-C11.15", r.Key("R-C11.15", nil, "weights-agree", ""), token.NoPos, "all slot operations move the same weight",
+			fmt.Sprintf("the slot operations move different weights %v: releasing more than was acquired panics, releasing less leaks slots until the dispatcher blocks", keysOfInt64(weights)))
+		r.Floor("R-C11.15", "operations on the slot semaphore", nsem, 2)
+	}
 	r.Doc("R-C11.14", "whether a hash was already queued, requested or fetched is decided by its presence in the task cache, not by the value stored for it (the first task state is the zero value)")
 	{
 		ex := p.FuncI("entry", "Fetcher", "exclude")
@@ -124,8 +173,8 @@ func runC11(c *Ctx, r *Report) {
 			walkNoLit(n, func(nd ast.Node) bool {
 				if call, ok := nd.(*ast.CallExpr); ok {
 					if cf := p.Callee(fe, call); cf != nil && cf.Pkg() != nil && cf.Pkg().Path() == "context" && (cf.Name() == "WithTimeout" || cf.Name() == "WithDeadline") && len(call.Args) == 2 {
-						if v, _ := p.FieldSel(fe, call.Args[1]); v == timeoutF {
-							f["fine"] = true // deadline in place
+						if v, _ := p.FieldSel(fe, call.Args[1]); v == timeoutF && f["positive"] {
+							f["fine"] = true // deadline in place, derived from a timeout known to be positive (a zero one cancels the fetch at once)
 						}
 					}
 				}
@@ -137,6 +186,9 @@ func runC11(c *Ctx, r *Report) {
 				// the side on which the timeout is known to be <= 0
 				if nc, ok := p.normalizeCmp(fe, a, func(e ast.Expr) bool { v, _ := p.FieldSel(fe, e); return v == timeoutF }); ok && nc.impliesNonPositive() {
 					f["fine"] = true // no timeout configured on this path
+				}
+				if nc, ok := p.normalizeCmp(fe, a, func(e ast.Expr) bool { v, _ := p.FieldSel(fe, e); return v == timeoutF }); ok && nc.impliesPositive() {
+					f["positive"] = true
 				}
 			}
 		}
@@ -440,7 +492,7 @@ func runC11(c *Ctx, r *Report) {
 				id, ok := ast.Unparen(e).(*ast.Ident)
 				return ok && p.ObjOf(pq, id) == counter
 			}
-			if nc, ok := p.normalizeCmp(pq, a, isCounter); ok && nc.impliesNonPositive() {
+			if nc, ok := p.normalizeCmp(pq, a, isCounter); ok && nc.impliesNonPositive() && nc.holdsAt(0) { // leaves the loop exactly when nothing is in flight (a test that 0 does not pass never ends the wait)
 				f["drained"] = true
 			}
 		}
@@ -477,8 +529,83 @@ func runC11(c *Ctx, r *Report) {
 		// require the drained fact at every exit reachable after the counter's declaration
 		r.Check(at["drained"], "R-C11.2", r.Key("R-C11.2", pq, "drain-before-return", ""), pos,
 			"the function returns only after observing the in-progress counter at zero (all workers accounted)",
-			"processQueue can return while workers are still in progress: they then write to results after it was handed out, and Fetch's deferred cancel kills their requests")
+			"the wait for the workers is not left exactly when none is in flight (processQueue can return while workers are still in progress, or never returns): they then write to results after it was handed out, and Fetch's deferred cancel kills their requests")
 	})
+
+	// ---- R-C11.16: the dispatcher's loops distinguish exactly "nothing" from "something"
+	r.Doc("R-C11.16", "the in-flight counter starts at zero, and every test of it or of the queue length in the dispatcher separates exactly zero from the positive values (a loop that goes on at zero never ends, one that stops at one leaves a hash unfetched or a worker unawaited)")
+	{
+		ntest := 0
+		isCounterE := func(fn *Fn) func(ast.Expr) bool {
+			return func(e ast.Expr) bool {
+				id, ok := ast.Unparen(e).(*ast.Ident)
+				return ok && p.ObjOf(fn, id) == counter
+			}
+		}
+		isQueueLen := func(fn *Fn) func(ast.Expr) bool {
+			return func(e ast.Expr) bool {
+				call, ok := ast.Unparen(e).(*ast.CallExpr)
+				if !ok || len(call.Args) != 0 {
+					return false
+				}
+				cf := p.Callee(fn, call)
+				return cf != nil && cf.Name() == "Len" && cf.Pkg() != nil && cf.Pkg().Path() == p.pkgPath("entry")
+			}
+		}
+		exact := func(nc normCmp) bool {
+			// true for every value >= 1 and false at 0, or the complement
+			pos := (nc.Op == token.GTR && nc.C == 0) || (nc.Op == token.GEQ && nc.C == 1) || (nc.Op == token.NEQ && nc.C == 0)
+			zero := (nc.Op == token.LEQ && nc.C == 0) || (nc.Op == token.LSS && nc.C == 1) || (nc.Op == token.EQL && nc.C == 0)
+			return pos || zero
+		}
+		for _, fn := range p.AllViews(pq) {
+			var conds []ast.Expr
+			walkNoLit(fn.Body, func(n ast.Node) bool {
+				switch x := n.(type) {
+				case *ast.ForStmt:
+					if x.Cond != nil {
+						conds = append(conds, x.Cond)
+					}
+				case *ast.IfStmt:
+					conds = append(conds, x.Cond)
+				}
+				return true
+			})
+			for _, cnd := range conds {
+				for _, alt := range dnfCond(cnd, true) {
+					for _, a := range alt {
+						for _, sb := range []struct {
+							what string
+							is   func(ast.Expr) bool
+						}{{"in-flight counter", isCounterE(fn)}, {"queue length", isQueueLen(fn)}} {
+							nc, ok := p.normalizeCmp(fn, a, sb.is)
+							if !ok {
+								continue
+							}
+							ntest++
+							r.Check(exact(nc), "R-C11.16", r.Key("R-C11.16", fn, "zero-test", sb.what), a.E.Pos(),
+								"the test separates zero from the positive values",
+								fmt.Sprintf("the dispatcher tests the %s with `%s`, which does not separate zero from the positive values: a wait or dispatch loop that goes on at zero never ends, one that stops at one leaves the last hash unfetched or the last worker unawaited (what it queues is never fetched)", sb.what, types.ExprString(a.E)))
+						}
+					}
+				}
+			}
+		}
+		// initial value
+		okInit, why := false, "no single initialisation of the counter found"
+		if def := p.SoleDefAllowingSteps(pq, counter); def != nil {
+			if v, isC := p.constInt(pq, def); isC {
+				okInit, why = v == 0, fmt.Sprintf("it starts at %d", v)
+			} else if bl, isLit := def.(*ast.BasicLit); isLit && bl.Value == "0" {
+				okInit = true
+			} else {
+				why = "it does not start from a constant"
+			}
+		}
+		r.Check(okInit, "R-C11.16", r.Key("R-C11.16", pq, "counter-init", ""), pq.Body.Pos(), "the in-flight counter starts at zero",
+			"the in-flight counter does not start at zero ("+why+"): the final wait for the workers never sees it drained, or returns while one is still running")
+		r.Floor("R-C11.16", "tests of the counter and the queue length in the dispatcher", ntest, 3)
+	}
 
 	// --- R-C11.3 gate
 	excludeFn := p.FuncObj("entry", "Fetcher", "exclude")
@@ -876,4 +1003,13 @@ func reachesExt(c *Ctx, fn *Fn, call *ast.CallExpr, pkg, recv, name string, dept
 		return true
 	})
 	return found
+}
+
+func keysOfInt64(m map[int64]bool) []int64 {
+	var out []int64
+	for k := range m {
+		out = append(out, k)
+	}
+	sort.Slice(out, func(i, j int) bool { return out[i] < out[j] })
+	return out
 }
